@@ -34,6 +34,7 @@ func init() {
 	}})
 	register(&Family{Name: "rt.c19", Gen: genC19RT, Run: runC19RT})
 	register(&Family{Name: "rt.c19conc", Gen: genC19Conc, Run: runC19Conc})
+	register(&Family{Name: "rt.c19seq", Gen: genC19Seq, Run: runC19Seq})
 }
 
 // genC19Sim walks the exec faults of the C09 enumeration.
@@ -251,6 +252,89 @@ func runC19Conc(t *testing.T, sc *world.Scenario) *check.Result {
 	res.Events = n
 	res.Nontrivial = true
 	res.State(sc.Variant)
+	return res
+}
+
+// rt.c19seq: what a long-running daemon does - many calls one after the other in ONE process, healthy
+// commands interleaved with commands that run into their deadline, fail to start or exit non-zero. Every
+// call is judged like a single one: nothing may accumulate from call to call.
+func genC19Seq(seed uint64, tier string) *world.Scenario {
+	sc := &world.Scenario{Family: "rt.c19seq", Seed: seed, Params: map[string]float64{}}
+	r := kernel.NewRand(seed, "c19seq")
+	sc.Params["calls"] = float64(r.Range(14, 24))
+	sc.Params["timeoutMs"] = float64(kernel.Pick(r, 200, 300, 400))
+	sc.Variant = "sequence"
+	return sc
+}
+
+func runC19Seq(t *testing.T, sc *world.Scenario) *check.Result {
+	res := check.NewResult(sc.Family, sc.Seed)
+	res.ScHash = scHash(sc)
+	timeout := time.Duration(sc.Params["timeoutMs"]) * time.Millisecond
+	n := int(sc.Params["calls"])
+	res.Sample = fmt.Sprintf("rt.c19seq calls=%d timeout=%s", n, timeout)
+	dir, err := os.MkdirTemp(shmBase2(), fmt.Sprintf("verif-c19s-%d-", os.Getpid()))
+	if err != nil {
+		res.Harness = err.Error()
+		return res
+	}
+	defer os.RemoveAll(dir)
+	_ = os.Chmod(dir, 0755)
+	exe := filepath.Join(dir, "cmd.sh")
+	body := fmt.Sprintf("#!/bin/sh\ncase \"$1\" in hang) sleep %.1f;; fail) echo no >&2; exit 3;; esac\necho 7\n", (4 * timeout).Seconds())
+	if err := os.WriteFile(exe, []byte(body), 0755); err != nil {
+		res.Harness = err.Error()
+		return res
+	}
+	_ = os.Chmod(exe, 0755)
+	r := kernel.NewRand(sc.Seed, "c19seq.calls")
+	margin := 1500 * time.Millisecond
+	hangs := 0
+	for i := 0; i < n; i++ {
+		kind := kernel.Pick(r, "ok", "ok", "hang", "hang", "fail", "missing")
+		path := exe
+		if kind == "missing" {
+			path = filepath.Join(dir, "nope.sh")
+		}
+		type outcome struct {
+			out string
+			err error
+		}
+		done := make(chan outcome, 1)
+		start := time.Now()
+		go func() {
+			out, err := util.SafeCmdExecution(path, []string{kind}, timeout)
+			done <- outcome{out, err}
+		}()
+		sig := fmt.Sprintf("sequence call=%s", kind)
+		select {
+		case o := <-done:
+			el := time.Since(start)
+			res.Probe("calls-judged")
+			if el > timeout+margin {
+				res.Violate("C19", "returns-in-time", "returns-in-time "+sig, i, nil, "call #%d (%s) of a sequence with %d timed-out calls before it returned after %s (bound %s)", i, kind, hangs, el.Round(time.Millisecond), timeout+margin)
+			}
+			if kind == "ok" && (o.err != nil || o.out != "7") {
+				res.Violate("C19", "output-returned", "output-returned "+sig, i, nil, "call #%d (healthy command, %d timed-out calls before it) returned %q, %v", i, hangs, trunc(o.out, 40), o.err)
+			}
+			if kind != "ok" && o.err == nil {
+				res.Violate("C19", "error-reported", "error-reported "+sig, i, nil, "call #%d (%s) returned no error (output %q)", i, kind, trunc(o.out, 40))
+			}
+		case <-time.After(timeout + 6*time.Second):
+			res.Probe("calls-judged")
+			res.Violate("C19", "returns-in-time", "returns-in-time "+sig, i, nil, "call #%d (%s) of a sequence with %d timed-out calls before it had not returned after %s", i, kind, hangs, timeout+6*time.Second)
+			res.Events = i
+			res.Nontrivial = true
+			return res
+		}
+		if kind == "hang" {
+			hangs++
+		}
+	}
+	res.ProbeN("timed-out-calls-in-sequences", hangs)
+	res.Events = n
+	res.Nontrivial = true
+	res.State(fmt.Sprintf("hangs>=4:%v", hangs >= 4))
 	return res
 }
 
